@@ -171,5 +171,10 @@ func NewTimerModel(d time.Duration) *time.Timer {
 // sleep).
 func Quiesce() { time.Sleep(30 * time.Millisecond) }
 
+// QuiesceFor is Quiesce for harnesses whose code under test arms real
+// protocol timeouts: natively it sleeps d (long enough for them to fire); under
+// the engine it is Quiesce (virtual time).
+func QuiesceFor(d time.Duration) { time.Sleep(d) }
+
 // QuiesceModel is the engine's version of Quiesce.
 func QuiesceModel() { <-AfterModel(1000 * time.Hour) }
